@@ -455,7 +455,8 @@ type c26Proc struct{}
 func (c26Proc) OnSyncerStarting() {}
 
 func (c26Proc) Process(kvp *model.KVPair) ([]*model.KVPair, error) {
-	name := kvp.Key.(model.ResourceKey).Name
+	rk := kvp.Key.(model.ResourceKey)
+	name := rk.Kind + "-" + rk.Name
 	ka := model.HostConfigKey{Hostname: name, Name: "a"}
 	kb := model.HostConfigKey{Hostname: name, Name: "b"}
 	if kvp.Value == nil {
@@ -683,7 +684,7 @@ func (c *c26Case) checkViolations() {
 func TestVerifC26WatcherSyncer(t *testing.T) {
 	ev.Quiet()
 	rec := ev.New("C26", "watchersyncer",
-		"real watchersyncer (goroutines) over a fake revisioned datastore with 1..3 resource types (one with an update processor, one with SendDeletesOnConnFail), retry intervals 1ms, watchRetryTimeout 1ns or 1h; generated steps: create/update/delete objects, queue List outcomes (error / not-installed / expired / empty-without-revision) and Watch outcomes (error / expired / gone / refused / too-many-requests / not-supported / not-exist / ok with end-after-n-events by error event, expired event or close, bookmarks), kill the running watcher, wait-for-watch-established barriers; then a two-sentinel quiescence barrier and the outcome oracle. Non-trivial = >=1 watcher ended by an injected fault after being established AND >=1 List was served that lacked a key the cache had been told about (a resync delete was required); distinct = step-kind sequence",
+		"real watchersyncer (goroutines) over a fake revisioned datastore with 1..3 resource types (each randomly with a stateless update processor and/or SendDeletesOnConnFail), retry intervals 1ms, watchRetryTimeout 1ns or 1h; generated steps: create/update/delete objects, queue List outcomes (error / not-installed / expired / empty-without-revision) and Watch outcomes (error / expired / gone / refused / too-many-requests / not-supported / not-exist / ok with end-after-n-events by error event, expired event or close, bookmarks), kill the running watcher, wait-for-watch-established barriers; then a two-sentinel quiescence barrier and the outcome oracle. Non-trivial = >=1 watcher ended by an injected fault after being established AND >=1 List was served that lacked a key the cache had been told about (a resync delete was required); distinct = step-kind sequence",
 		"a List answered NotFound (API not installed) counts as a completed, empty list",
 		"revisions are integers issued by the fake; every write bumps the object's revision (as etcd/k8s do)",
 		"deadline (120s per wait) => VERIF-INCONCLUSIVE, never a violation")
@@ -703,17 +704,16 @@ func TestVerifC26WatcherSyncer(t *testing.T) {
 		nTypes := rapid.IntRange(1, 3).Draw(t, "numTypes")
 		kinds := c26Kinds[:nTypes]
 		store := &c26Store{types: map[string]*c26TypeState{}, changed: make(chan struct{}), rev: rapid.IntRange(1, 50).Draw(t, "initialRevision")}
-		withProc := map[string]bool{apiv3.KindIPPool: true}
+		withProc := map[string]bool{}
 		var rts []watchersyncer.ResourceType
 		for _, k := range kinds {
 			store.types[k] = &c26TypeState{kind: k, objs: map[string]c26Obj{}, cacheKnows: map[string]bool{}}
 			rt := watchersyncer.ResourceType{ListInterface: model.ResourceListOptions{Kind: k}}
-			if withProc[k] {
+			if rapid.Bool().Draw(t, "updateProcessor-"+k) {
+				withProc[k] = true
 				rt.UpdateProcessor = c26Proc{}
 			}
-			if k == apiv3.KindBGPPeer {
-				rt.SendDeletesOnConnFail = true
-			}
+			rt.SendDeletesOnConnFail = rapid.Bool().Draw(t, "sendDeletesOnConnFail-"+k)
 			rts = append(rts, rt)
 		}
 		cbs := &c26Recorder{store: store, kinds: kinds, view: map[string]string{}, changed: make(chan struct{})}
@@ -737,7 +737,7 @@ func TestVerifC26WatcherSyncer(t *testing.T) {
 		}
 
 		// Initial contents and initial fault plans (so that start-of-day failures are covered).
-		nInit := rapid.IntRange(0, 4).Draw(t, "initialObjects")
+		nInit := rapid.IntRange(0, 6).Draw(t, "initialObjects")
 		for i := 0; i < nInit; i++ {
 			k, n := kindGen.Draw(t, "kind"), nameGen.Draw(t, "name")
 			store.set(k, n)
@@ -781,7 +781,7 @@ func TestVerifC26WatcherSyncer(t *testing.T) {
 		for i := 0; i < nSteps; i++ {
 			kind := kindGen.Draw(t, "kind")
 			short := c26KindShort[c26IndexOf(c26Kinds, kind)]
-			step := rapid.SampledFrom([]string{"set", "set", "del", "del", "settle", "settle", "listFault", "watchPlan", "kill", "outage", "outage"}).Draw(t, "step")
+			step := rapid.SampledFrom([]string{"set", "set", "del", "settle", "listFault", "watchPlan", "kill", "outage", "outage", "outage"}).Draw(t, "step")
 			switch step {
 			case "set":
 				n := nameGen.Draw(t, "name")
@@ -855,7 +855,7 @@ func TestVerifC26WatcherSyncer(t *testing.T) {
 				store.mu.Unlock()
 				c.steps = append(c.steps, fmt.Sprintf("  kill %s, %d watch errors then expiry, %d list errors", how, nf, nlf))
 				for _, n := range names {
-					switch rapid.SampledFrom([]string{"delete", "delete", "update", "keep"}).Draw(t, "during-"+n) {
+					switch rapid.SampledFrom([]string{"delete", "delete", "delete", "update", "keep"}).Draw(t, "during-"+n) {
 					case "delete":
 						store.del(kind, n)
 						outageDeletes++
@@ -909,24 +909,38 @@ func TestVerifC26WatcherSyncer(t *testing.T) {
 				c.settle(k)
 			}
 			before, _ := counters()
+			// Everything the sentinel write must produce in the callbacks (through the processor):
+			// present keys with their values, and keys that must be absent.  Waiting for all of it
+			// matters because one watch event can fan out into several results.
 			want := map[string]string{}
+			var absent []string
 			for _, k := range kinds {
 				store.set(k, "sentinel")
 				store.mu.Lock()
 				o := store.types[k].objs["sentinel"]
 				store.mu.Unlock()
-				key := c26Key(k, "sentinel").String()
-				val := o.val
-				if withProc[k] {
-					key = model.HostConfigKey{Hostname: "sentinel", Name: "a"}.String()
-					val = "a:" + o.val
+				if !withProc[k] {
+					want[c26Key(k, "sentinel").String()] = o.val
+					continue
 				}
-				want[key] = val
+				kvps, _ := c26Proc{}.Process(&model.KVPair{Key: c26Key(k, "sentinel"), Value: o.val, Revision: strconv.Itoa(o.rev)})
+				for _, kv := range kvps {
+					if kv.Value != nil {
+						want[kv.Key.String()] = fmt.Sprint(kv.Value)
+					} else {
+						absent = append(absent, kv.Key.String())
+					}
+				}
 			}
 			c.steps = append(c.steps, fmt.Sprintf("sentinel round %d", rounds))
-			c.waitRec(fmt.Sprintf("sentinel round %d visible in callbacks (%v)", rounds, want), func() bool {
+			c.waitRec(fmt.Sprintf("sentinel round %d visible in callbacks (%v, absent %v)", rounds, want, absent), func() bool {
 				for k, v := range want {
 					if cbs.view[k] != v {
+						return false
+					}
+				}
+				for _, k := range absent {
+					if _, ok := cbs.view[k]; ok {
 						return false
 					}
 				}
